@@ -56,6 +56,18 @@ def wf_colour(r):
         return (1, 16 + 36 * r.below(6) + 6 * r.below(6) + r.below(6), 0, 0)
     if k < 8:
         return (2, 232 + r.below(24), 0, 0)
+    c = r.below(6)
+    if c == 0:
+        # a grey: the xterm greyscale ramp (8 + 10 n), the cube levels, and neighbours
+        v = r.pick([8 + 10 * r.below(24), 8 + 10 * r.below(24), 0, 95, 135, 175, 215, 255, 128, 9, 237, 239])
+        return (3, v, v, v)
+    if c == 1:
+        # exactly a colour of the 6x6x6 cube, or of the 16 system colours
+        lv = [0, 95, 135, 175, 215, 255]
+        return r.pick([(3, r.pick(lv), r.pick(lv), r.pick(lv)), (3, r.pick([0, 128, 255, 205, 192]), r.pick([0, 128, 255, 205]), r.pick([0, 128, 255, 238]))])
+    if c == 2:
+        # three-digit components (the longest parameters)
+        return (3, r.rng(100, 255), r.rng(100, 255), r.rng(100, 255))
     return (3, r.below(256), r.below(256), r.below(256))
 
 
@@ -65,9 +77,34 @@ def wf_attr(r):
     return wf_colour(r) + wf_colour(r) + (r.pick([0, 0, 1, 2]), r.below(2), r.below(2), r.below(2))
 
 
+def long_colour(r):
+    return r.pick([(3, r.rng(100, 255), r.rng(100, 255), r.rng(100, 255)), (1, r.rng(100, 231), 0, 0), (2, r.rng(232, 255), 0, 0)])
+
+
+def extreme_pair(r):
+    """two attributes whose difference needs the longest SGR sequence: every
+    effect changes, bold<->faint, both colours change to long parameters"""
+    i0 = r.pick([1, 2])
+    a = wf_colour(r) + wf_colour(r) + (i0, r.below(2), r.below(2), r.below(2))
+    if r.chance(1, 2):
+        a = a[:8] + (i0, 1, 1, 1)
+    b = long_colour(r) + long_colour(r) + (3 - i0, 1 - a[9], 1 - a[10], 1 - a[11])
+    return a, b
+
+
 def mutate_attr(r, a):
     """change exactly one component (sometimes two) of an attribute"""
     a = list(a)
+    if r.chance(1, 8):
+        # the same colours used the other way round, or one colour moved to the other plane
+        c = r.below(3)
+        if c == 0:
+            a[0:4], a[4:8] = a[4:8], a[0:4]
+        elif c == 1:
+            a[4:8] = a[0:4]
+        else:
+            a[0:4] = a[4:8]
+        return tuple(a)
     for _ in range(1 if r.chance(3, 4) else 2):
         k = r.below(6)
         if k == 0:
@@ -165,9 +202,21 @@ class ElemSource:
         self.prev_attr = DEFAULT_ATTR
         self.prev_cs = 5
         self.prev_g = None
+        self.queued = None
 
     def next(self, near=None, near_attr=None):
         r = self.r
+        if not self.wild and near is None:
+            if self.queued is not None:
+                a, self.queued = self.queued, None
+                g = wf_glyph(r)
+                self.prev_attr, self.prev_cs, self.prev_g = a, g[0], g
+                return el(g, a)
+            if r.chance(1, 25):
+                a, self.queued = extreme_pair(r)
+                g = wf_glyph(r)
+                self.prev_attr, self.prev_cs, self.prev_g = a, g[0], g
+                return el(g, a)
         if self.wild:
             g, a = wild_glyph(r), (wild_attr(r) if r.chance(1, 2) else self.prev_attr)
         else:
@@ -328,7 +377,56 @@ def gen_term_case(r, idx, wild=False, nops=None, kinds=None):
 
 
 # ---- screens ---------------------------------------------------------------------
+def gen_logview_case(r, idx):
+    """a full-screen view whose content moves as a whole between frames: scrolled up
+    or down by a row, shifted left or right by a column, with the vacated row or
+    column filled afresh - the frames an application showing a log produces"""
+    lines = ["CASE %d" % idx, "T 0 new %d" % beh_mask(r), "S 0 new 0"]
+    w, h = r.rng(1, 6), r.rng(2, 5)
+    lines.append("K 0 new %d %d" % (w, h))
+    es = ElemSource(r, False)
+    same = r.chance(1, 2)
+    attr = wf_attr(r)
+
+    def fresh():
+        return el(wf_glyph(r), attr) if same else es.next()
+
+    grid = {}
+    for y in range(h):
+        for x in range(w):
+            grid[(x, y)] = fresh() if r.chance(5, 6) else DEFAULT_TXT
+    for frame in range(r.rng(2, 6)):
+        if frame > 0:
+            mv = r.pick(["up", "up", "up", "down", "left", "right", "edit"])
+            new = {}
+            for y in range(h):
+                for x in range(w):
+                    sx, sy = {"up": (x, y + 1), "down": (x, y - 1), "left": (x + 1, y), "right": (x - 1, y), "edit": (x, y)}[mv]
+                    if 0 <= sx < w and 0 <= sy < h:
+                        new[(x, y)] = grid[(sx, sy)]
+                    else:
+                        new[(x, y)] = fresh() if r.chance(4, 5) else DEFAULT_TXT
+            if mv == "edit" or r.chance(1, 4):
+                new[(r.below(w), r.below(h))] = fresh()
+            for p in sorted(new, key=lambda q: (q[1], q[0])):
+                if new[p] != grid[p] or frame == 0:
+                    lines.append("K 0 set %d %d %s" % (p[0], p[1], new[p]))
+            grid = new
+        else:
+            for p in sorted(grid, key=lambda q: (q[1], q[0])):
+                lines.append("K 0 set %d %d %s" % (p[0], p[1], grid[p]))
+        lines.append("T 0 size %d %d" % (w, h))
+        lines.append("S 0 draw 0")
+    lines.append("END")
+    return lines
+
+
+DEFAULT_TXT = "5 32 0 0 0 9 0 0 0 9 0 0 0 0 0 0"
+
+
 def gen_screen_case(r, idx, wild=False):
+    if not wild and r.chance(1, 8):
+        return gen_logview_case(r, idx)
     lines = ["CASE %d" % idx, "T 0 new %d" % beh_mask(r), "S 0 new 0"]
     w, h = r.rng(1, 6), r.rng(1, 4)
     if r.chance(1, 40):
